@@ -28,6 +28,7 @@ def run(tier, seed):
     r = common.run_tlc("FormFactor", "MC_FormFactor.cfg", wd, timeout=600)
     from xfab import structure
     import numpy as np
+    common.package_in_use()
     coef = {q["el"]: [x / 1e6 for x in q["c"]] for q in ff}
     step = 1000 if tier == "quick" else 10000
     grid = [k / float(step) for k in range(0, 2 * step + 1)]
